@@ -9,11 +9,13 @@ import (
 
 	"dsverif/internal/an"
 	"dsverif/internal/core"
+
+	"golang.org/x/tools/go/packages"
 )
 
 func init() {
 	Registry["C14"] = Prop{
-		Patterns: []string{"./ring"},
+		Patterns: []string{"./ring", "./loser"},
 		Run:      runC14,
 		Explanation: "Decides two structural clauses of 'reported token ranges coincide with key ownership and tile the key space' in every function returning ring.TokenRanges: (R1) no in-band sentinel: an unsigned local that is assigned both a constant K and a data value must not be compared with K to mean 'no value yet' (K is a legitimate token/range bound); " +
 			"(R2) a pending range end is always closed: on every path (loops unrolled once, flags tracked path-sensitively) from a statement that records a pending bound together with its boolean flag to a successful return, the bound is consumed by an append/addRange. NOT decided: the equality 'range contains key ⇔ lookup assigns key' and the tiling themselves (relations between two computations over runtime token values).",
@@ -22,6 +24,9 @@ func init() {
 
 func runC14(c *core.Ctx) {
 	c.Rule("R1", "no in-band sentinel on unsigned locals in the range builders", 2)
+	c.Rule("R3", "k-way merge: an ended sequence never beats a live one holding the end marker's value (2^32-1 is a token)", 1)
+	c.Rule("R4", "arithmetic on 32-bit keys/tokens in lookup and range code is confined to the reviewed sites; guarded sites keep their guard", 7)
+	c.Rule("R5", "token lists fed to the k-way merge are sorted by both producers", 2)
 	c.Rule("R2", "a pending range bound recorded with its flag is consumed on every path to a successful return", 2)
 	pkg := c.Prog.Pkg("ring")
 	if pkg == nil {
@@ -59,6 +64,244 @@ func runC14(c *core.Ctx) {
 	}
 	if n < 2 {
 		c.Undec("R1", "builders", pkg.Syntax[0].Pos(), fmt.Sprintf("expected ≥2 functions building TokenRanges, found %d", n))
+	}
+	c14MergeMarker(c, pkg)
+	c14Arithmetic(c, pkg)
+	c14SortedInputs(c, pkg)
+}
+
+// c14MergeMarker (R3): the token lists of a ring are merged by loser.Tree with an end-of-sequence marker
+// equal to the largest token (2^32-1). Where two sequences are compared, an ended sequence (value =
+// marker) must therefore never win against a live one holding that same value as a real token: the
+// initial tournament's game must be decided by the 'ended' flag on equal values, as the replay already is.
+func c14MergeMarker(c *core.Ctx, pkg *packages.Package) {
+	mt := an.FindFunc(pkg, "MergeTokens")
+	lp := c.Prog.Pkg("loser")
+	if mt == nil || lp == nil {
+		c.Miss("R3", "func=MergeTokens / pkg=loser", "not found")
+		return
+	}
+	c.Analysed(mt.String())
+	news := mt.CallsTo(false, "loser", "New")
+	if len(news) != 1 || len(news[0].Expr.Args) != 2 {
+		c.Undec("R3", "func=MergeTokens:marker", mt.Pos(), "expected one loser.New(lists, marker) call")
+		return
+	}
+	marker := mt.Canon(news[0].Expr.Args[1])
+	inBand := marker == "math.MaxUint32" || marker == "MaxUint32" || marker == "4294967295"
+	if !inBand {
+		c.Hold("R3", "func=MergeTokens:marker", news[0].Expr.Pos(), "end-of-sequence marker "+marker+" (not the largest token)", 1)
+	}
+	pg := an.FindFunc(lp, "Tree.playGame")
+	if pg == nil {
+		c.Miss("R3", "func=loser.Tree.playGame", "not found")
+		return
+	}
+	c.Analysed(pg.String())
+	g := pg.Graph()
+	var aWins, bWins []an.Loc
+	for _, b := range g.Blocks {
+		if r := an.ReturnOf(b); r != nil && len(r.Results) == 2 {
+			switch {
+			case pg.Canon(r.Results[0]) == "p1" && pg.Canon(r.Results[1]) == "p0":
+				aWins = append(aWins, g.Locate(r))
+			case pg.Canon(r.Results[0]) == "p0" && pg.Canon(r.Results[1]) == "p1":
+				bWins = append(bWins, g.Locate(r))
+			default:
+				c.Undec("R3", "func=loser.Tree.playGame:table", r.Pos(), "return is neither (b, a) nor (a, b)")
+				return
+			}
+		}
+	}
+	if len(aWins) != 1 || len(bWins) != 1 {
+		c.Undec("R3", "func=loser.Tree.playGame:table", pg.Pos(), fmt.Sprintf("expected one return per winner, found %d/%d", len(aWins), len(bWins)))
+		return
+	}
+	t := an.Table{G: g, From: g.EntryLoc(), FreeUnknown: true,
+		Atoms: []an.Atom{{Name: "cmp", Values: []string{"lt", "eq", "gt"}}, {Name: "bEnded", Values: []string{"T", "F"}}},
+		Binder: &an.Binder{Fn: pg, Cmp: map[string]string{"recv.nodes[p0].value|recv.nodes[p1].value": "cmp"}, Eq: map[string]string{"recv.nodes[p1].index|-1": "bEnded"}},
+		Targets: []an.Loc{aWins[0], bWins[0]}, Names: []string{"a wins", "b wins"},
+		Want: func(r an.Row, i int) an.Tri {
+			if r["bEnded"] == "T" && r["cmp"] == "gt" {
+				return an.U // infeasible: an ended sequence holds the largest value
+			}
+			a := r["cmp"] == "lt" || (r["bEnded"] == "T" && r["cmp"] == "eq")
+			return an.FromBool(a == (i == 0))
+		}}
+	res := t.Run()
+	c.Check(res.OK(), "R3", "func=loser.Tree.playGame:table", pg.Pos(), fmt.Sprintf("the merge's end marker is %s, a legitimate token: in the initial tournament a sequence wins ⇔ its value is smaller ∨ (equal ∧ the other sequence has ended) — otherwise an instance whose only token is 2^32-1 loses it next to a token-less instance: %s", marker, res.Summary()), res.Rows)
+}
+
+// c14Reviewed lists every non-constant addition/subtraction on 32-bit key or token values in the
+// ring's lookup and range code, keyed by function and canonical expression, with the reason it cannot
+// wrap wrongly. A new site is undecided until it has been reviewed (key arithmetic wraps silently).
+var c14Reviewed = map[string]string{
+	"(*PartitionRing).GetTokenRangesForPartition$1|(λp0 - 1)":                        "compared with the previous range end only: start==0 yields 2^32-1, which no earlier range of the ascending walk can end at (the wrap-around range is added last)",
+	"(*PartitionRing).GetTokenRangesForPartition|(each(recv.desc.Partitions[p0].Tokens) - 1)": "intended wrap: the owner of token 0 owns the range ending at 2^32-1, handled as the 'last range'",
+	"(*Ring).GetTokenRangesForInstance|(recv.ringTokensByZone[recv.ringDesc.Ingesters[p0].Zone][i] - 1)":  "i > 0 in a strictly ascending token list: the token is ≥ 1",
+	"(*Ring).GetTokenRangesForInstance|(recv.ringTokensByZone[recv.ringDesc.Ingesters[p0].Zone][0] - 1)":  "guarded by firstToken != 0 (checked below)",
+	"tokenDistance|(p1 - p0)": "guarded by from < to (checked below)",
+}
+
+func c14Arithmetic(c *core.Ctx, pkg *packages.Package) {
+	skip := func(file string) bool {
+		return strings.HasSuffix(file, ".pb.go") || strings.HasSuffix(file, "spread_minimizing_token_generator.go") || strings.HasSuffix(file, "token_generator.go")
+	}
+	isU32 := func(fn *an.Fn, e ast.Expr) bool {
+		t := fn.Info().TypeOf(e)
+		if t == nil {
+			return false
+		}
+		b, ok := t.Underlying().(*types.Basic)
+		return ok && b.Kind() == types.Uint32
+	}
+	seen := map[string]bool{}
+	var all []*an.Fn
+	for _, top := range an.Funcs(pkg) {
+		all = append(all, top)
+		all = append(all, top.AllLits()...)
+	}
+	for _, fn := range all {
+		if skip(c.Prog.Fset.Position(fn.Pos()).Filename) {
+			continue
+		}
+		fn.InspectShallow(func(n ast.Node) bool {
+			var expr ast.Expr
+			var pos token.Pos
+			switch x := n.(type) {
+			case *ast.BinaryExpr:
+				if (x.Op == token.ADD || x.Op == token.SUB) && isU32(fn, x) && fn.Info().Types[x].Value == nil {
+					expr, pos = x, x.Pos()
+				}
+			case *ast.IncDecStmt:
+				if isU32(fn, x.X) {
+					c.Undec("R4", "arith:func="+fn.Name+":"+fn.Canon(x.X)+x.Tok.String(), x.Pos(), "increment/decrement of a 32-bit key or token value has not been reviewed for wrap-around")
+				}
+			case *ast.AssignStmt:
+				if (x.Tok == token.ADD_ASSIGN || x.Tok == token.SUB_ASSIGN) && isU32(fn, x.Lhs[0]) {
+					c.Undec("R4", "arith:func="+fn.Name+":"+fn.Canon(x.Lhs[0])+x.Tok.String(), x.Pos(), "compound assignment on a 32-bit key or token value has not been reviewed for wrap-around")
+				}
+			}
+			if expr == nil {
+				return true
+			}
+			key := fn.Name + "|" + fn.Canon(expr)
+			if why, ok := c14Reviewed[key]; ok {
+				if !seen[key] {
+					seen[key] = true
+					c.Hold("R4", "arith:"+key, pos, "reviewed: "+why, 1)
+				}
+			} else {
+				c.Undec("R4", "arith:"+key, pos, "arithmetic on a 32-bit key or token value that is not in the reviewed table (props/c14.go): it wraps silently at 0 / 2^32-1, where the property quantifies explicitly")
+			}
+			return true
+		})
+	}
+	for key := range c14Reviewed {
+		if !seen[key] {
+			c.Miss("R4", "arith:"+key, "reviewed arithmetic site no longer present (table out of date)")
+		}
+	}
+	// the two guarded sites: the guard is still there
+	if fn := an.FindFunc(pkg, "Ring.GetTokenRangesForInstance"); fn != nil {
+		g := fn.Graph()
+		var tgt []an.Loc
+		fn.InspectShallow(func(n ast.Node) bool {
+			if b, ok := n.(*ast.BinaryExpr); ok && b.Op == token.SUB && strings.HasSuffix(fn.Canon(b), "[0] - 1)") {
+				tgt = append(tgt, g.Locate(stmtOf(fn, b)))
+			}
+			return true
+		})
+		if len(tgt) == 1 {
+			first := strings.TrimSuffix(strings.TrimPrefix(fn.Canon(tgt[0].B.Nodes[tgt[0].I].(*ast.AssignStmt).Rhs[0].(*ast.CallExpr).Args[1]), "("), " - 1)")
+			t := an.Table{G: g, From: g.EntryLoc(), MayOnly: true, Opts: an.ExecOpts{Unroll: 1}, Atoms: []an.Atom{{Name: "zero", Values: []string{"T", "F"}}},
+				Binder: &an.Binder{Fn: fn, Eq: map[string]string{first + "|0": "zero"}}, Targets: tgt,
+				Want: func(r an.Row, _ int) an.Tri {
+					if r["zero"] == "T" {
+						return an.F
+					}
+					return an.U
+				}}
+			res := t.Run()
+			c.Check(res.OK(), "R4", "guard:GetTokenRangesForInstance:firstToken-1", fn.Pos(), "firstToken-1 is unreachable when the first token is 0: "+res.Summary(), res.Rows)
+		} else {
+			c.Undec("R4", "guard:GetTokenRangesForInstance:firstToken-1", fn.Pos(), "site not found")
+		}
+	}
+	if fn := an.FindFunc(pkg, "tokenDistance"); fn != nil {
+		g := fn.Graph()
+		var tgt []an.Loc
+		for _, b := range g.Blocks {
+			if r := an.ReturnOf(b); r != nil && strings.Contains(fn.Canon(r.Results[0]), "(p1 - p0)") {
+				tgt = append(tgt, g.Locate(r))
+			}
+		}
+		t := an.Table{G: g, From: g.EntryLoc(), MayOnly: true, Atoms: []an.Atom{{Name: "cmp", Values: []string{"lt", "eq", "gt"}}},
+			Binder: &an.Binder{Fn: fn, Cmp: map[string]string{"p0|p1": "cmp"}}, Targets: tgt,
+			Want: func(r an.Row, _ int) an.Tri {
+				if r["cmp"] != "lt" {
+					return an.F
+				}
+				return an.U
+			}}
+		res := t.Run()
+		c.Check(res.OK() && len(tgt) == 1, "R4", "guard:tokenDistance:to-from", fn.Pos(), "to-from is computed only when from < to: "+res.Summary(), res.Rows)
+	}
+}
+
+// c14SortedInputs (R5): the k-way merge requires sorted inputs. Both producers of the ring's token
+// lists (Desc.GetTokens → the list lookups search, Desc.getTokensByZone → the lists the range builders
+// walk) sort an instance's tokens unless sort.IsSorted says they are — descriptors written by older
+// versions may hold unsorted tokens — so the two lists always agree.
+func c14SortedInputs(c *core.Ctx, pkg *packages.Package) {
+	for _, name := range []string{"Desc.GetTokens", "Desc.getTokensByZone"} {
+		fn := an.FindFunc(pkg, name)
+		if fn == nil {
+			c.Miss("R5", "func="+name, "not found")
+			continue
+		}
+		c.Analysed(fn.String())
+		g := fn.Graph()
+		loops := rangeLoops(fn, "recv.Ingesters")
+		if len(loops) != 1 {
+			c.Undec("R5", "func="+name, fn.Pos(), "expected one loop over the instances")
+			continue
+		}
+		header, body, _ := g.LoopBlocks(loops[0])
+		tok := "each(recv.Ingesters).Tokens"
+		var collect, sorts []an.Loc
+		for _, call := range fn.Calls(false) {
+			if !an.InNode(loops[0], call.Expr) {
+				continue
+			}
+			if an.ObjIs(call.Callee, "", "append") && len(call.Expr.Args) == 2 && fn.Canon(call.Expr.Args[1]) == tok {
+				collect = append(collect, g.Locate(call.Expr))
+			}
+			if (call.Is("sort", "Sort") || call.Is("slices", "Sort") || call.Is("sort", "Stable")) && len(call.Expr.Args) == 1 && fn.Canon(call.Expr.Args[0]) == tok {
+				sorts = append(sorts, g.Locate(call.Expr))
+			}
+		}
+		if len(collect) != 1 {
+			c.Undec("R5", "func="+name, fn.Pos(), fmt.Sprintf("expected one append of the instance's tokens (%s) to the merge input, found %d", tok, len(collect)))
+			continue
+		}
+		if len(sorts) != 1 {
+			c.Viol("R5", "func="+name, loops[0].Pos(), fmt.Sprintf("the instance's tokens reach the k-way merge without being sorted (%d sort calls on %s): descriptors written by older versions may hold unsorted tokens, and the merged list would disagree with the per-zone lists", len(sorts), tok))
+			continue
+		}
+		t := an.Table{G: g, From: an.Loc{B: body, I: 0}, Opts: an.ExecOpts{Header: header}, FreeUnknown: true, Atoms: []an.Atom{{Name: "sorted", Values: []string{"T", "F"}}},
+			Binder: &an.Binder{Fn: fn, Bool: map[string]string{"sort.IsSorted(" + tok + ")": "sorted"}}, Targets: []an.Loc{sorts[0], collect[0]}, Names: []string{"sort", "collect"},
+			Want: func(r an.Row, i int) an.Tri {
+				if i == 1 {
+					return an.T
+				}
+				if r["sorted"] == "F" {
+					return an.T
+				}
+				return an.U
+			}}
+		res := t.Run()
+		c.Check(res.OK(), "R5", "func="+name, loops[0].Pos(), "every instance's tokens are collected, and sorted first whenever sort.IsSorted is false — on nothing else: "+res.Summary(), res.Rows)
 	}
 }
 
